@@ -114,6 +114,20 @@ Fixpoint learns (ak : act_kind) (gamma : Q) (sc : script) (st : cstate) (calls :
       let '(st2, l) := learns ak gamma sc st1 r in (st2, outs :: l)
   end.
 
+(* ---------------------------------------------------------------- gSDE noise resampling inside a rollout *)
+(* step index j (0-based, within the rollout) at which `reset_noise` is called inside the collection loop *)
+Definition sde_resample (use_sde : bool) (freq j : Z) : bool := use_sde && (0 <? freq) && (j mod freq =? 0).
+
+Fixpoint sde_positions (use_sde : bool) (freq : Z) (k : nat) (j : Z) : list Z :=
+  match k with
+  | O => []
+  | S k' => (if sde_resample use_sde freq j then [j] else []) ++ sde_positions use_sde freq k' (j + 1)
+  end.
+
+(* all reset_noise calls of one rollout of k steps: once before the loop when gSDE is on, then the positions above *)
+Definition sde_calls (use_sde : bool) (freq : Z) (k : nat) : list Z :=
+  (if use_sde then [0] else []) ++ sde_positions use_sde freq k 0.
+
 (* ---------------------------------------------------------------- ground truth of one scripted env *)
 
 (* cursor after g auto-reset steps, and the g-th (0-based) step's output *)
